@@ -1,7 +1,7 @@
 (* C02 — property theorems only. *)
 From Coq Require Import List Bool Sorted.
 Import ListNotations.
-From IV Require Import C02.Defs C02.Proofs C02.ArityDefs C02.ArityProofs.
+From IV Require Import C02.Defs C02.Proofs C02.ArityDefs C02.ArityProofs C02.ConstDefs C02.ConstProofs.
 
 (* overload dispatch: in a set that uses one C++ type per Python category and whose members differ in category somewhere, a call whose
    arguments correspond exactly to the parameters of overload o runs o; for every class hierarchy in which a base ranks below its derived classes *)
@@ -46,3 +46,33 @@ Theorem c02_arity_table_wrong_refuted :
   NoDup (map r_id rs) /\ candidates (table_wrong rs) 1 <> set_at rs 1 /\ candidates (table rs) 1 = set_at rs 1.
 Proof. exact table_wrong_refuted. Qed.
 Print Assumptions c02_arity_table_wrong_refuted.
+
+(* const and non-const members in one set, RemapCompareLess in full (non-const first, then more parameters first, then by rank) and the
+   emitted const guard: the member whose parameters correspond exactly to the arguments and that can be called on the object runs, provided
+   the C++ call is well defined (when that member is const and the object is not, no non-const member accepts the arguments) *)
+Theorem c02_const_dispatch_exact_partial : forall depth is_base, (forall b d, is_base b d = true -> depth b < depth d) ->
+  forall this_const l o args,
+  ctried_in_order depth l -> In o l ->
+  all2 (@exact) (o_params o) args = true ->
+  (negb this_const || o_const o = true) ->
+  (forall o', In o' l -> Forall2 (consistent depth) (o_params o') (o_params o)) ->
+  (forall o', In o' l -> o_const o' = o_const o -> map cat_of (o_params o') = map cat_of (o_params o) -> o' = o) ->
+  (o_const o = true -> forall o', In o' l -> o_const o' = false -> caccepts is_base this_const o' args = false) ->
+  cdispatch is_base this_const l args = Some o.
+Proof. exact cdispatch_exact. Qed.
+Print Assumptions c02_const_dispatch_exact_partial.
+
+(* sorting any list of overloads (any mix of arities and constness) with the full comparison gives such an order *)
+Theorem c02_const_sort_tried_in_order : forall depth l, ctried_in_order depth (csort depth l).
+Proof. exact csort_tried_in_order. Qed.
+Print Assumptions c02_const_sort_tried_in_order.
+
+(* the pair  f() / f() const : each object runs its own member; with const members sorted first the non-const object runs the const one *)
+Theorem c02_const_first_refuted :
+  let depth := fun _ : nat => 0 in let is_base := fun _ _ : nat => false in
+  let nc := {| o_const := false; o_params := [PInt] |} in let c := {| o_const := true; o_params := [PInt] |} in
+  cdispatch is_base false (csort depth [c; nc]) [AInt] = Some nc /\
+  cdispatch is_base true (csort depth [c; nc]) [AInt] = Some c /\
+  cdispatch is_base false (csort_wrong depth [c; nc]) [AInt] = Some c.
+Proof. exact const_pair. Qed.
+Print Assumptions c02_const_first_refuted.
